@@ -127,8 +127,9 @@ def split_record(line):
         "chrom": chrom,
         "pos": int(pos) if re.match(r"^\d+$", pos) and len(pos) < 10 else -1,
         "id": id_,
-        "ref": list(ref),
-        "alts": [] if alt == "." else [list(a) for a in alt.split(",")],
+        # VCF 4.3 1.6.1: REF/ALT bases are case insensitive -> compared in upper case
+        "ref": list(ref.upper()),
+        "alts": [] if alt == "." else [list(a.upper()) for a in alt.split(",")],
         "qual": lex_value(qual),
         "filter": flt.split(";"),
         "info": [],
